@@ -70,7 +70,7 @@ type wr struct {
 type taintRun struct {
 	g       *graph
 	ptr     map[ssa.Value]bool
-	carrier map[ssa.Value]map[string]bool
+	carrier map[ssa.Value]map[string]types.Type
 	dirty   map[*ssa.Function]bool
 	writes  []wr
 	seen    map[string]bool
@@ -84,18 +84,18 @@ func (r *taintRun) markPtr(f *ssa.Function, v ssa.Value) {
 	}
 }
 
-func (r *taintRun) markCarrier(f *ssa.Function, v ssa.Value, tys map[string]bool) {
+func (r *taintRun) markCarrier(f *ssa.Function, v ssa.Value, tys map[string]types.Type) {
 	if v == nil {
 		return
 	}
 	m := r.carrier[v]
 	if m == nil {
-		m = map[string]bool{}
+		m = map[string]types.Type{}
 		r.carrier[v] = m
 	}
-	for t := range tys {
-		if !m[t] {
-			m[t] = true
+	for k, t := range tys {
+		if _, ok := m[k]; !ok {
+			m[k] = t
 			r.dirty[f] = true
 		}
 	}
@@ -109,7 +109,7 @@ func (r *taintRun) write(kind string, pos token.Pos) {
 }
 
 // carrierOf: v is an address inside (or a slice of) a carrier, without passing through a load
-func (r *taintRun) carrierOf(v ssa.Value) map[string]bool {
+func (r *taintRun) carrierOf(v ssa.Value) map[string]types.Type {
 	for i := 0; i < 16 && v != nil; i++ {
 		if m := r.carrier[v]; m != nil {
 			return m
@@ -132,9 +132,42 @@ func (r *taintRun) carrierOf(v ssa.Value) map[string]bool {
 
 func typeKey(t types.Type) string { return types.TypeString(t, nil) }
 
+// comesFrom: a value of type t loaded out of a carrier may be (part of) what was parked there: t is or contains
+// one of the parked types, or one of the parked types (a struct copied out of the global) contains t
+func comesFrom(t types.Type, tys map[string]types.Type) bool {
+	if containsType(t, tys, 0) {
+		return true
+	}
+	for _, parked := range tys {
+		if hasPart(parked, typeKey(t), 0) {
+			return true
+		}
+	}
+	return false
+}
+
+// hasPart: a struct / array value of type t has a field or element (at any depth) of the type named key
+func hasPart(t types.Type, key string, depth int) bool {
+	if depth > 3 {
+		return false
+	}
+	switch u := t.Underlying().(type) {
+	case *types.Struct:
+		for i := 0; i < u.NumFields(); i++ {
+			ft := u.Field(i).Type()
+			if typeKey(ft) == key || hasPart(ft, key, depth+1) {
+				return true
+			}
+		}
+	case *types.Array:
+		return typeKey(u.Elem()) == key || hasPart(u.Elem(), key, depth+1)
+	}
+	return false
+}
+
 // containsType: a value of type t is, or (as a struct/array) contains, a value of one of the types
-func containsType(t types.Type, tys map[string]bool, depth int) bool {
-	if tys[typeKey(t)] {
+func containsType(t types.Type, tys map[string]types.Type, depth int) bool {
+	if _, ok := tys[typeKey(t)]; ok {
 		return true
 	}
 	if depth > 3 {
@@ -194,7 +227,7 @@ func (r *taintRun) propagate(f *ssa.Function) {
 					}
 					if r.ptr[x.X] && pointerLike(x.Type()) {
 						r.markPtr(f, x) // a pointer stored in g's memory: what it points to belongs to g
-					} else if tys := r.carrierOf(x.X); tys != nil && pointerLike(x.Type()) && containsType(x.Type(), tys, 0) {
+					} else if tys := r.carrierOf(x.X); tys != nil && pointerLike(x.Type()) && comesFrom(x.Type(), tys) {
 						r.markPtr(f, x)
 					}
 				case *ssa.Slice:
@@ -263,7 +296,7 @@ func (r *taintRun) propagate(f *ssa.Function) {
 					if r.ptr[x.Val] && pointerLike(x.Val.Type()) && !r.ptr[x.Addr] {
 						// the tainted pointer is parked in local memory: that memory becomes a carrier
 						if a := localAllocRoot(x.Addr); a != nil {
-							r.markCarrier(f, a, map[string]bool{typeKey(x.Val.Type()): true})
+							r.markCarrier(f, a, map[string]types.Type{typeKey(x.Val.Type()): x.Val.Type()})
 						} else if m := r.carrierOf(x.Addr); m != nil {
 							root := x.Addr
 							for r.carrier[root] == nil {
@@ -278,7 +311,7 @@ func (r *taintRun) propagate(f *ssa.Function) {
 									root = y.X
 								}
 							}
-							r.markCarrier(f, root, map[string]bool{typeKey(x.Val.Type()): true})
+							r.markCarrier(f, root, map[string]types.Type{typeKey(x.Val.Type()): x.Val.Type()})
 						}
 					}
 				}
@@ -383,11 +416,25 @@ func (r *taintRun) scan(f *ssa.Function, work *[]*ssa.Function) {
 				if sc := c.StaticCallee(); sc != nil {
 					callees = []*ssa.Function{sc}
 				} else {
+					have := map[*ssa.Function]bool{}
 					for _, cand := range r.g.full[f] {
 						if !c.IsInvoke() && cand.Signature.Recv() == nil && types.Identical(cand.Signature, c.Signature()) {
 							callees = append(callees, cand)
+							have[cand] = true
 						} else if c.IsInvoke() && cand.Signature.Recv() != nil && cand.Name() == c.Method.Name() {
 							callees = append(callees, cand)
+							have[cand] = true
+						}
+					}
+					if !c.IsInvoke() {
+						// A function value may come from outside the analysed code (a host passing RuntimeOptions to
+						// runtime.New): when it is handed memory of a package-level variable, every module function
+						// of that signature is a possible callee (class-hierarchy style, by signature).
+						for _, cand := range r.g.fns {
+							if !have[cand] && r.g.isMod[cand] && len(cand.Blocks) > 0 && cand.Signature.Recv() == nil &&
+								types.Identical(cand.Signature, c.Signature()) {
+								callees = append(callees, cand)
+							}
 						}
 					}
 				}
@@ -443,7 +490,7 @@ func (r *taintRun) scan(f *ssa.Function, work *[]*ssa.Function) {
 
 // writesFrom: start a taint at `seeds` inside f0 and collect the writes it leads to (f0 and callees)
 func writesFrom(g *graph, f0 *ssa.Function, seeds []ssa.Value) []wr {
-	r := &taintRun{g: g, ptr: map[ssa.Value]bool{}, carrier: map[ssa.Value]map[string]bool{}, dirty: map[*ssa.Function]bool{}, seen: map[string]bool{}, budget: 400}
+	r := &taintRun{g: g, ptr: map[ssa.Value]bool{}, carrier: map[ssa.Value]map[string]types.Type{}, dirty: map[*ssa.Function]bool{}, seen: map[string]bool{}, budget: 400}
 	for _, s := range seeds {
 		r.ptr[s] = true
 	}
@@ -562,7 +609,7 @@ func globals(facts *Facts, g *graph) {
 				if !mentions(f, gl) || f.Signature.Results().Len() == 0 {
 					continue
 				}
-				r := &taintRun{g: g, ptr: map[ssa.Value]bool{gl: true}, carrier: map[ssa.Value]map[string]bool{}, dirty: map[*ssa.Function]bool{}, seen: map[string]bool{}}
+				r := &taintRun{g: g, ptr: map[ssa.Value]bool{gl: true}, carrier: map[ssa.Value]map[string]types.Type{}, dirty: map[*ssa.Function]bool{}, seen: map[string]bool{}}
 				r.propagate(f)
 				for _, b := range f.Blocks {
 					for _, in := range b.Instrs {
